@@ -11,12 +11,12 @@ TABLE = {
  "C03": ("exploration", "generated well-nested frame programs with owned poll schedules, panics and thread hops vs per-thread stack model (proptest, stateful)", "3/C03"),
  "C04": ("exploration", "generated span trees (sync/async/manual, disabled nodes, hops, incoming ids) vs relational trace-tree oracle (proptest)", "3/C04"),
  "C05": ("exploration", "generated SpanGuard operation sequences and macro exit paths vs state-machine model (proptest, stateful)", "3/C05"),
- "C06": ("exploration", "generated and small-scope exhaustive channel histories on a harness-owned schedule vs FIFO/exactly-once model; OS-thread stress (proptest, stateful)", "3/C06"),
- "C07": ("exploration", "channel histories with flush requests at every point vs finalised-before-flush invariant; end-to-end file/OTLP flush (proptest, stateful)", "3/C07"),
- "C08": ("fault_enumeration", "generated processor outcome sequences (fail/retry/panic), sender drop, panicking callbacks on a virtual clock vs bounded-progress model; blocking entry points from each calling context", "3/C08"),
- "C09": ("exploration", "generated send-variant sequences x capacities x stalled receivers vs bounded-queue model (proptest, stateful)", "3/C09"),
- "C10": ("fault_enumeration", "batch histories x single-fault-exhaustive and random multi-fault plans x crash images on a model filesystem vs durability/tokeniser oracle", "3/C10"),
- "C11": ("fault_enumeration", "configurations x clock trajectories x histories x directory contents vs naming/rolling/retention reference and op-log audit (proptest, stateful)", "3/C11"),
+ "C06": ("exploration", "generated and small-scope exhaustive channel histories on a harness-owned schedule vs FIFO/exactly-once model; OS-thread stress (proptest, stateful) + coverage-guided libFuzzer target chan_c06 over the same histories and oracle", "3/C06"),
+ "C07": ("exploration", "channel histories with flush requests at every point vs finalised-before-flush invariant; end-to-end file/OTLP flush (proptest, stateful) + coverage-guided libFuzzer target chan_c07 over the same histories and oracle", "3/C07"),
+ "C08": ("fault_enumeration", "generated processor outcome sequences (fail/retry/panic), sender drop, panicking callbacks on a virtual clock vs bounded-progress model; blocking entry points from each calling context + coverage-guided libFuzzer target chan_c08 over the same histories and oracle", "3/C08"),
+ "C09": ("exploration", "generated send-variant sequences x capacities x stalled receivers vs bounded-queue model (proptest, stateful) + coverage-guided libFuzzer target chan_c09 over the same histories and oracle", "3/C09"),
+ "C10": ("fault_enumeration", "batch histories x single-fault-exhaustive and random multi-fault plans x crash images on a model filesystem vs durability/tokeniser oracle + coverage-guided libFuzzer target file_c10 over the same histories and oracle", "3/C10"),
+ "C11": ("fault_enumeration", "configurations x clock trajectories x histories x directory contents vs naming/rolling/retention reference and op-log audit (proptest, stateful) + coverage-guided libFuzzer target file_c11 over the same histories and oracle", "3/C11"),
  "C12": ("fault_enumeration", "event streams x per-request collector fault scripts x transports against a scripted local collector vs at-least-once/exactly-once oracle", "3/C12"),
  "C13": ("exploration", "events over a recursive value grammar through every sink, decoded with prost/JSON readers vs reference mapping; proto-vs-JSON differential; libFuzzer target value_to_sinks", "3/C13"),
  "C14": ("exploration", "complete enumeration of event classes x 8 signal subsets against a routing classifier", "3/C14"),
